@@ -151,6 +151,13 @@ def shape_docs():
         "two_headers_only": ["Headers", "{", '  "h": "v"', "}", "Description", "  text"],
     }
     res = []
+    # the same heads with @t standing for a type of another notation / shape (declared before and after its use)
+    for tdef in ('TYPE @t regex\n/ab+/\n', 'TYPE @t\n1\n', 'TYPE @t\n[1]\n', 'TYPE @t\n"s"\n', 'TYPE @t\n@u\nTYPE @u regex\n/a/\n'):
+        for h in (" @t", " [@t]"):
+            for before in (True, False):
+                use = ("POST /a\n  Request%s\n  200%s\nURL /u\n  PUT\n    Request\n      Body%s\n    201\n      Body%s\n"
+                       "URL /r\n  Protocol json-rpc-2.0\n  Method m\n    Params\n      @t\n    Result\n      @t\n") % (h, h, h, h)
+                res.append("JSIGHT 0.3\n" + (tdef + use if before else use + tdef))
     pre = 'JSIGHT 0.3\nTYPE @t\n{\n  "id": 1\n}\n'
     for h in heads:
         for kn, kl in kids.items():
